@@ -287,6 +287,9 @@ func (g *gen) govOp() CStep {
 	case 2:
 		// a service blocks / unblocks a source
 		st.Obj, st.Act, st.Role = "service", "block", "chainadmin"
+	case 3:
+		// the appchain is updated by its admin (name, admin list)
+		st.Obj, st.Act, st.Role = "chain", "update", "chainadmin"
 	}
 	if g.cfg.Late && r.Chance(0.25) {
 		// submit the registration of the chain's late service (again, if it was submitted before)
